@@ -87,6 +87,9 @@ func init() {
 		"internal/bytealg.CountString": func(fr *frame, a []value) value {
 			return strings.Count(a[0].(string), string([]byte{a[1].(byte)}))
 		},
+		"strings.Repeat": func(fr *frame, a []value) value {
+			return strings.Repeat(concStr(fr, a[0]), int(asInt64(a[1])))
+		},
 		"strings.Index":     extStringsIndex,
 		"strings.HasPrefix": extHasPrefix,
 		"strings.HasSuffix": extHasSuffix,
